@@ -54,6 +54,7 @@ class Broker:
         self.committed = {}                                # (group, partition) -> offset
         self.log = None                                    # recorder log of the running incarnation
         self.journal = []                                  # survives incarnations
+        self.committed_failures = 0                        # how many upcoming committed() calls fail
 
     def note(self, *a):
         self.journal.append(a)
@@ -134,6 +135,11 @@ class Consumer:
         return lo, hi
 
     def committed(self, tps, timeout=None):
+        if self.b.committed_failures > 0:
+            # transient broker trouble: the call may be retried
+            self.b.committed_failures -= 1
+            self.b.note('committed_failed')
+            raise KafkaException('transient failure fetching committed offsets')
         out = []
         for tp in tps:
             out.append(TopicPartition(tp.topic, tp.partition, self.b.committed.get((self.group, tp.partition), OFFSET_INVALID)))
